@@ -14,7 +14,8 @@
 (***************************************************************************)
 EXTENDS Naturals, Sequences, FiniteSets, TLC
 
-CONSTANT HasSets   \* the attribute-presence vectors explored (SUBSET Attrs in the thorough tier)
+CONSTANTS HasSets,    \* the attribute-presence vectors explored (SUBSET Attrs in the thorough tier)
+          PolHasSets  \* the vectors for which the export-policy dimension is explored as well
 
 VARIABLE c     \* the current case
 
@@ -23,14 +24,19 @@ DstRoles == {"Ebgp", "Ibgp", "IbgpRrClient", "RsClient", "ConfedEbgp"}
 AspShapes == {"empty", "seq2", "seq255", "set2", "cseq2_seq2", "cseq2"}
 Attrs == {"LP", "MED", "OID", "CL", "AIGP", "UT", "UN"}   \* UT/UN: unknown optional transitive / non-transitive
 
+\* export policy of the receiving neighbour: none, or one statement that always applies and sets the next hop, sets the
+\* MED, or replaces the communities (the last one only to see that it cannot take LLGR_STALE off a stale route)
+Pols == {"none", "nexthop", "med", "comm"}
+
 Cases == [src : SrcKinds, dst : DstRoles, confed : BOOLEAN, asp : AspShapes,
-          has : HasSets, llgr : BOOLEAN, same : BOOLEAN]
+          has : HasSets, llgr : BOOLEAN, same : BOOLEAN, pol : Pols]
 
 \* a case is meaningful when ...
 Meaningful(x) ==
   /\ (x.src = "local" => ~x.same /\ ~x.llgr)                  \* locally originated: no peer, never stale
   /\ (x.src = "confed" \/ x.dst = "ConfedEbgp" => x.confed)    \* confed roles need a confederation
   /\ (x.same => x.src # "local")
+  /\ (x.pol # "none" => x.has \in PolHasSets)
 
 IbgpLearned(k) == k \in {"ibgp", "ibgpc"}
 IbgpDst(r)     == r \in {"Ibgp", "IbgpRrClient"}
@@ -63,9 +69,7 @@ Hops(q) == IF q = <<>> THEN 0 ELSE Head(q).n + Hops(Tail(q))
 \* the AS that must be first in the path sent to an eBGP peer
 FirstAs(x) == IF x.confed THEN "confed_id" ELSE "local_as"
 
-Expected(x) ==
-  IF Suppressed(x) THEN [sent |-> FALSE]
-  ELSE
+Rewritten(x) ==
   CASE x.dst = "Ebgp" ->
          [sent   |-> TRUE,
           asp    |-> Prepend(StripConfed(Shape(x.asp)), "SEQ"),
@@ -99,6 +103,19 @@ Expected(x) ==
          [sent   |-> TRUE, asp |-> "any", first |-> "any",
           absent |-> {"UN"}, present |-> (IF "UT" \in x.has THEN {"UT"} ELSE {}),
           nexthop |-> "any", oid |-> "any", cl |-> "any"]
+
+\* the receiver's defaults come first, the export policy's next-hop / MED actions are applied to the result and are what
+\* is sent ("policy"); medval / comm "any" = not constrained
+Expected(x) ==
+  IF Suppressed(x) THEN [sent |-> FALSE]
+  ELSE
+    LET e == Rewritten(x) IN
+    [sent |-> TRUE, asp |-> e.asp, first |-> e.first, oid |-> e.oid, cl |-> e.cl,
+     absent  |-> IF x.pol = "med" THEN e.absent \ {"MED"} ELSE e.absent,
+     present |-> IF x.pol = "med" THEN e.present \cup {"MED"} ELSE e.present,
+     nexthop |-> IF x.pol = "nexthop" THEN "policy" ELSE e.nexthop,
+     medval  |-> IF x.pol = "med" THEN "policy" ELSE "any",
+     comm    |-> IF x.pol = "comm" THEN "policy" ELSE "any"]
 
 \* common to every sent route
 ExpectedCommon(x) ==
